@@ -135,8 +135,11 @@ func makeIntrinsics() map[string]intrinsic {
 	m["google.golang.org/grpc/status.Errorf"] = func(st *State, fr *frame, a []value, cc *ssa.CallCommon) value { return newErr(st, "grpc-status") }
 	m[V+"StateDigest"] = func(st *State, fr *frame, a []value, cc *ssa.CallCommon) value {
 		var names []string
+		pre := fmt.Sprintf("%d/", envOf(a[0]))
 		for n := range st.colls {
-			names = append(names, n)
+			if strings.HasPrefix(n, pre) {
+				names = append(names, n)
+			}
 		}
 		sort.Strings(names)
 		var sb strings.Builder
@@ -441,9 +444,12 @@ func makeIntrinsics() map[string]intrinsic {
 	m[V+"RealCodec"] = func(st *State, fr *frame, a []value, cc *ssa.CallCommon) value {
 		return iface{t: errObjType, v: &opaque{tag: "codec"}}
 	}
-	m[V+"SDKContext"] = func(st *State, fr *frame, a []value, cc *ssa.CallCommon) value { return &opaque{tag: "sdkctx"} }
+	m[V+"SDKContext"] = func(st *State, fr *frame, a []value, cc *ssa.CallCommon) value {
+		return &opaque{tag: "sdkctx", id: envOf(a[0])}
+	}
 	m[V+"NewEnv"] = func(st *State, fr *frame, a []value, cc *ssa.CallCommon) value {
-		return tuple{iface{t: errObjType, v: &opaque{tag: "ctx"}}, iface{t: errObjType, v: &opaque{tag: "storesvc"}}}
+		st.envN++
+		return tuple{iface{t: errObjType, v: &opaque{tag: "ctx", id: st.envN}}, iface{t: errObjType, v: &opaque{tag: "storesvc", id: st.envN}}}
 	}
 	m[V+"Assume"] = func(st *State, fr *frame, a []value, cc *ssa.CallCommon) value {
 		c := a[0].(*Term)
@@ -537,6 +543,20 @@ func makeIntrinsics() map[string]intrinsic {
 		}
 		return r
 	}
+	indexByte := func(st *State, fr *frame, a []value, cc *ssa.CallCommon) value {
+		s := a[0].(*Str)
+		c := Resize(a[1].(*Term), 8, false)
+		r := BVConst(big.NewInt(-1), 64)
+		for i := len(s.B) - 1; i >= 0; i-- {
+			hit := And(Eq(s.B[i], c), BVCmp("bvult", BVConstI(int64(i), 64), s.Len))
+			r = Ite(hit, BVConstI(int64(i), 64), r)
+		}
+		return r
+	}
+	m["strings.IndexByte"] = indexByte
+	m["internal/bytealg.IndexByteString"] = indexByte
+	m["internal/bytealg.IndexByte"] = indexByte
+	m["bytes.IndexByte"] = indexByte
 	MI := "(cosmossdk.io/math.Int)."
 	bi := func(st *State, x value, fr *frame, what string) *Term {
 		b := x.(*bigV)
@@ -754,12 +774,39 @@ func makeIntrinsics() map[string]intrinsic {
 		return ok
 	}
 	SDK := "github.com/cosmos/cosmos-sdk/types."
-	denomOK := func(st *State, d *Str) bool {
-		s, ok := d.Concrete()
-		if !ok {
-			panic(pathEnd{kind: "unsupported", msg: "symbolic denom validation (prototype)"})
+	// sdk.ValidateDenom: ^[a-zA-Z][a-zA-Z0-9/:._-]{2,127}$ as a byte predicate
+	denomTerm := func(d *Str) *Term {
+		if s, ok := d.Concrete(); ok && d.Blob == nil {
+			return BoolConst(denomRe.MatchString(s))
 		}
-		return regexp.MustCompile(`^[a-zA-Z][a-zA-Z0-9/:._-]{2,127}$`).MatchString(s)
+		if d.Blob != nil {
+			panic(pathEnd{kind: "unsupported", msg: "denom validation of an abstract string"})
+		}
+		rng := func(b *Term, lo, hi byte) *Term {
+			return And(BVCmp("bvuge", b, BVConstI(int64(lo), 8)), BVCmp("bvule", b, BVConstI(int64(hi), 8)))
+		}
+		letter := func(b *Term) *Term { return Or(rng(b, 'a', 'z'), rng(b, 'A', 'Z')) }
+		ok := And(BVCmp("bvuge", d.Len, BVConstI(3, 64)), BVCmp("bvule", d.Len, BVConstI(128, 64)))
+		if len(d.B) == 0 {
+			return False
+		}
+		ok = And(ok, letter(d.B[0]))
+		for i := 1; i < len(d.B); i++ {
+			b := d.B[i]
+			okc := Or(letter(b), rng(b, '0', '9'))
+			for _, c := range []byte("/:._-") {
+				okc = Or(okc, Eq(b, BVConstI(int64(c), 8)))
+			}
+			ok = And(ok, Or(Not(BVCmp("bvult", BVConstI(int64(i), 64), d.Len)), okc))
+		}
+		return ok
+	}
+	denomOK := func(st *State, d *Str) bool { return st.decide(denomTerm(d)) }
+	m[SDK+"ValidateDenom"] = func(st *State, fr *frame, a []value, cc *ssa.CallCommon) value {
+		if denomOK(st, a[0].(*Str)) {
+			return iface{}
+		}
+		return newErr(st, "invalid denom")
 	}
 	m["("+SDK+"Coin).Validate"] = func(st *State, fr *frame, a []value, cc *ssa.CallCommon) value {
 		c := a[0].(structure)
@@ -1011,6 +1058,7 @@ func makeIntrinsics() map[string]intrinsic {
 		return out
 	}
 	addCollections(m)
+	withEnv(m)
 	return m
 }
 
@@ -1252,6 +1300,8 @@ func (st *State) witness() []WDraw {
 	}
 	return out
 }
+
+var denomRe = regexp.MustCompile(`^[a-zA-Z][a-zA-Z0-9/:._-]{2,127}$`)
 
 var bechPrefix = "noble"
 
